@@ -24,6 +24,7 @@ Expressions are nested tuples:
 References and derefs are erased.
 """
 import json
+import os
 import re
 from collections import defaultdict
 
@@ -49,7 +50,70 @@ SYM = {"Add": "+", "Sub": "-", "Mul": "*", "Div": "/", "Rem": "%", "BitAnd": "&"
        "Shl": "<<", "Shr": ">>", "Lt": "<", "Le": "<=", "Gt": ">", "Ge": ">=", "Eq": "==", "Ne": "!="}
 
 
+def _load_census():
+    path = os.path.join(os.path.dirname(os.path.abspath(__file__)), "census.json")
+    try:
+        with open(path) as fh:
+            return set(json.load(fh)["functions"])
+    except OSError:
+        return None
+
+
+CENSUS = _load_census()
+
+
+def norm_expr(e):
+    """bottom-up rewriting of equivalent spellings to one form:
+         a - min(a, b) / a - min(b, a)                    -> saturating_sub(a, b)
+         unwrap_or(copied(x), v) / unwrap_or(cloned(x), v) -> unwrap_or(x, v)
+         map_or(x, d, |s| s)                              -> unwrap_or(x, d)
+         phi{ c | (x as Some).0 }  (match x {Some(v) => v, None => c}) -> unwrap_or(x, c)"""
+    if not isinstance(e, tuple) or not e:
+        return e
+    e = tuple(norm_expr(x) if isinstance(x, tuple) else x for x in e)
+    if e[0] == "bin" and e[1] == "Sub" and is_call(e[3], "min") and len(e[3][3]) == 2 and e[2] in e[3][3]:
+        other = e[3][3][1] if e[3][3][0] == e[2] else e[3][3][0]
+        return ("call", "saturating_sub", None, (e[2], other), ())
+    if is_call(e, "unwrap_or") and len(e[3]) == 2 and is_call(e[3][0], ("copied", "cloned")) and len(e[3][0][3]) == 1:
+        return ("call", "unwrap_or", e[2], (e[3][0][3][0], e[3][1]), e[4] if len(e) > 4 else ())
+    if is_call(e, "map_or") and len(e[3]) == 3 and isinstance(e[3][2], tuple) and e[3][2][:1] == ("closure",):
+        return ("call", "unwrap_or", e[2], (e[3][0], e[3][1]), e[4] if len(e) > 4 else ())
+    if is_call(e, "from_elem") and len(e[3]) == 2:
+        # vec![x; n]  ==  repeat(x).take(n).collect()
+        return ("call", "collect", None, (("call", "take", None, (("call", "repeat", None, (e[3][0],), ()), e[3][1]), ()),), ())
+    if e[0] == "phi" and len(e[2]) == 2:
+        for some, dflt in ((e[2][0], e[2][1]), (e[2][1], e[2][0])):
+            if some[0] == "field" and some[2] == "0" and some[1][0] == "variant" and some[1][2] == "Some" \
+                    and not contains(dflt, lambda x: x == some[1][1]):
+                return ("call", "unwrap_or", None, (some[1][1], dflt), ())
+    return e
+
+
+def subst_expr(e, mapping):
+    if not isinstance(e, tuple):
+        return e
+    if e in mapping:
+        return mapping[e]
+    return tuple(subst_expr(y, mapping) if isinstance(y, tuple) else y for y in e)
+
+
 class Crate:
+    def new_helper(self, fn):
+        """Body of the callee when it is a function of this crate that did not exist on the reviewed tree
+        (rules/census.json): a helper introduced by a later edit. Rules see through such helpers (their return
+        expression / storage events are inlined at the call site) instead of treating them as unknown calls."""
+        if not fn or CENSUS is None:
+            return None
+        res = fn.get("res") or {}
+        if not (fn.get("local") or res.get("local")):
+            return None
+        for path in (res.get("path"), fn.get("path")):
+            if path and path not in CENSUS:
+                b = self.body(path)
+                if b is not None and b.kind in ("Fn", "AssocFn"):
+                    return b
+        return None
+
     def __init__(self, facts, config=None):
         self.facts = facts
         self.config = config
@@ -111,6 +175,26 @@ def ty_family(t):
     if s in ("u8", "u16", "u32", "u64", "u128", "usize"):
         return "uint"
     return s
+
+
+CHECKED_ARITH = {"checked_sub": "Sub", "checked_add": "Add", "checked_mul": "Mul"}
+
+
+def _norm_field(base, name):
+    """field projection with the idiom normalisations that make equivalent spellings compare equal:
+       (a, b).0                                   -> a            (match on a tuple of operands)
+       (x.checked_sub(y)? ).0 / (.. as Some).0     -> x - y        (the success value of checked arithmetic; the failing
+                                                                   case leaves through the other arm, so the difference
+                                                                   exists only where it cannot underflow)"""
+    if base[0] == "tuple" and name.isdigit() and int(name) < len(base[1]):
+        return base[1][int(name)]
+    if base[0] == "variant" and name == "0":
+        inner, var = base[1], base[2]
+        if var == "Continue" and inner[0] == "call" and inner[1] == "branch" and len(inner[3]) == 1:
+            inner, var = inner[3][0], "Some"
+        if var == "Some" and inner[0] == "call" and inner[1] in CHECKED_ARITH and len(inner[3]) == 2:
+            return ("bin", CHECKED_ARITH[inner[1]], inner[3][0], inner[3][1])
+    return ("field", base, name)
 
 
 class Body:
@@ -430,6 +514,10 @@ class Body:
         return ("unknown", str(o)[:60])
 
     def e_place(self, p, depth=0, visiting=None):
+        e = self._e_place(p, depth, visiting)
+        return norm_expr(self.canon_iv(e)) if depth == 0 else e
+
+    def _e_place(self, p, depth=0, visiting=None):
         l = p["l"]
         pr = p["pr"]
         # overflow tuples: (_26.0) of a checked op
@@ -455,7 +543,7 @@ class Body:
                 if base[0] == "ivopt" and name == "0":
                     base = ("iv", base[1])
                 else:
-                    base = ("field", base, name)
+                    base = _norm_field(base, name)
             elif "i" in el:
                 base = ("index", base, self.e_local(el["i"], depth + 1, visiting))
             elif "ci" in el:
@@ -489,6 +577,10 @@ class Body:
         return full
 
     def e_local(self, l, depth=0, visiting=None):
+        e = self._e_local(l, depth, visiting)
+        return norm_expr(self.canon_iv(e)) if depth == 0 else e
+
+    def _e_local(self, l, depth=0, visiting=None):
         if l in self._expr_cache:
             return self._expr_cache[l]
         if self.is_param(l):
@@ -522,9 +614,13 @@ class Body:
         full = self.full_defs(l)
         if len(full) != 1:
             return None
-        return self.e_def(full[0], 1, frozenset([l]))
+        return norm_expr(self.canon_iv(self.e_def(full[0], 1, frozenset([l]))))
 
     def e_def(self, d, depth, visiting):
+        e = self._e_def(d, depth, visiting)
+        return norm_expr(self.canon_iv(e)) if depth <= 1 else e
+
+    def _e_def(self, d, depth, visiting):
         _, kind, b, i = d
         if kind == "stmt":
             st = self.blocks[b]["st"][i]
@@ -533,6 +629,10 @@ class Body:
         return self.e_call(t, depth, visiting)
 
     def e_call(self, t, depth=0, visiting=None):
+        e = self._e_call(t, depth, visiting)
+        return norm_expr(self.canon_iv(e)) if depth == 0 else e
+
+    def _e_call(self, t, depth=0, visiting=None):
         f = t["f"]
         args = tuple(self.e_operand(a, depth + 1, visiting) for a in t["args"])
         if f["k"] == "const" and "fn" in f:
@@ -547,10 +647,21 @@ class Body:
             if tr in ("std::cmp::PartialEq", "std::cmp::PartialOrd") and name in CMP_TRAIT_METHODS and len(args) == 2:
                 return ("bin", CMP_TRAIT_METHODS[name], args[0], args[1])
             targs = tuple(short_ty(a) for a in fn.get("args", []))
+            h = self.crate.new_helper(fn) if depth < 30 else None
+            if h is not None and h is not self and not h.loops() and len(args) == h.arg_count \
+                    and not any(re.match(r"^&(?:'\S+ )?mut ", re.sub(r"'\{erased\} ?", "", h.local_ty(i + 1))) for i in range(h.arg_count)):
+                r = h.return_expr()
+                unit = r == ("tuple", ()) or (r[0] == "unknown") or (r[0] == "var" and r[1].startswith("_"))
+                if not unit and not contains(r, lambda x: isinstance(x, tuple) and x[:1] == ("var",) and len(x) > 2):
+                    return subst_expr(r, {("param", h.local_name(i + 1)): args[i] for i in range(h.arg_count)})
             return ("call", name, qual, args, targs)
         return ("call", "<indirect>", str(self.e_operand(f, depth + 1, visiting)), args, ())
 
     def e_rvalue(self, r, depth=0, visiting=None):
+        e = self._e_rvalue(r, depth, visiting)
+        return norm_expr(self.canon_iv(e)) if depth == 0 else e
+
+    def _e_rvalue(self, r, depth=0, visiting=None):
         k = r["k"]
         if k == "use":
             return self.e_operand(r["o"], depth, visiting)
@@ -633,14 +744,208 @@ class Body:
         return self.e_local(0)
 
     # ---- loops over iterators ---------------------------------------------------
-    def iter_source(self, iter_local):
-        """expression the iterator local was initialised from, with into_iter() stripped"""
+    def raw_iter_source(self, iter_local):
         e = self.init_expr(iter_local)
         while isinstance(e, tuple) and e[0] == "call" and e[1] == "into_iter" and len(e[3]) == 1:
             e = e[3][0]
         if e is None:
             return ("unknown", "iterator source of %s" % self.local_name(iter_local))
         return e
+
+    def iter_source(self, iter_local):
+        """expression the iterator local was initialised from, with into_iter() stripped. Iterators over (slices of)
+        storage - iter()/iter_mut(), zip, enumerate, take, skip, rev - are presented as the index range they walk
+        (see iter_shape), so that `for w in x.data[..n].iter_mut()` and `for i in 0..n { x.data[i] }` look the same."""
+        sh = self.iter_shape(iter_local)
+        if sh is not None and not sh["plain_range"]:
+            r = ("agg", "Range", "Range", (sh["lo"], sh["hi"]))
+            return ("call", "rev", "std::iter::Iterator::rev", (r,), ()) if sh["rev"] else r
+        return self.raw_iter_source(iter_local)
+
+    # ---- iterator desugaring -------------------------------------------------------------------------------
+    def _slice_bounds(self, s):
+        """slice expression -> (base, lo, hi) with hi = None for `to the end`"""
+        if is_call(s, ("index", "index_mut")) and len(s[3]) == 2 and s[3][1][0] == "agg":
+            base, r = s[3]
+            kind = r[1]
+            if kind == "Range" and len(r[3]) == 2:
+                return base, r[3][0], r[3][1]
+            if kind == "RangeTo" and len(r[3]) == 1:
+                return base, ("int", 0), r[3][0]
+            if kind == "RangeFrom" and len(r[3]) == 1:
+                return base, r[3][0], None
+            if kind == "RangeFull":
+                return base, ("int", 0), None
+            return None
+        if is_call(s, ("as_ref", "as_mut", "as_slice", "as_mut_slice", "deref", "deref_mut", "borrow", "borrow_mut")) and len(s[3]) == 1:
+            return self._slice_bounds(s[3][0])
+        if s[0] in ("field", "var", "param"):
+            return s, ("int", 0), None
+        return None
+
+    def _full_len(self, base):
+        """number of elements of the whole storage `base`"""
+        if base[0] == "field" and base[2] == "data":
+            root = root_of(base)
+            ty = None
+            if root[0] == "param":
+                for l in range(1, self.arg_count + 1):
+                    if self.local_name(l) == root[1]:
+                        ty = self.local_ty(l)
+            elif root[0] == "var" and len(root) > 2:
+                ty = self.local_ty(root[2])
+            if ty is not None and ty_family(ty) == "Bvf":
+                m = re.search(r",\s*([A-Za-z_][A-Za-z0-9_]*|\d+)(?:/#\d+)?\s*>\s*$", re.sub(r"^&(?:'\S+ )?(?:mut )?", "", ty.strip()))
+                if m:
+                    return ("int", int(m.group(1))) if m.group(1).isdigit() else ("cparam", m.group(1))
+        if base[0] == "var" and len(base) > 2:
+            m = re.match(r"^\[.*; (.+)\]$", re.sub(r"/#\d+", "", self.local_ty(base[2])))
+            if m:
+                return ("int", int(m.group(1))) if m.group(1).isdigit() else ("cparam", m.group(1))
+        return ("call", "len", None, (base,), ())
+
+    def _shape_of(self, e, depth=0):
+        """(n, comp, rev): iteration count, item description as a function of the counter k, reversed flag.
+        comp: ('idx', a) value a+k | ('elem', base, a) element base[a+k] | ('count',) | ('tuple', c0, c1)"""
+        if depth > 10 or not isinstance(e, tuple):
+            return None
+        if e[0] == "agg" and e[1] == "Range" and len(e[3]) == 2:
+            a, b2 = e[3]
+            return (b2 if a == ("int", 0) else ("bin", "Sub", b2, a)), ("idx", a), False
+        if (e[0] == "field" and e[2] == "data") or (is_call(e, ("index", "index_mut")) and len(e[3]) == 2 and e[3][1][0] == "agg"):
+            # a slice used directly as an iterator (`for w in &x.data[..n]`, `.zip(&rhs.data[..n])`)
+            e = ("call", "iter", None, (e,), ())
+        if not is_call(e) or not e[3]:
+            return None
+        nm, args = e[1], e[3]
+        if nm in ("into_iter", "copied", "cloned", "by_ref") and len(args) == 1:
+            inner = self._shape_of(args[0], depth + 1)
+            if inner is not None:
+                return inner
+            if nm == "into_iter":
+                nm = "iter"
+            else:
+                return None
+        if nm in ("iter", "iter_mut"):
+            sb = self._slice_bounds(args[0])
+            if sb is None:
+                return None
+            base, lo, hi = sb
+            if hi is None:
+                hi = self._full_len(base)
+            n = hi if lo == ("int", 0) else ("bin", "Sub", hi, lo)
+            return n, ("elem", base, lo), False
+        if nm == "rev" and len(args) == 1:
+            inner = self._shape_of(args[0], depth + 1)
+            if inner is None or inner[1][0] == "tuple":
+                return None
+            return inner[0], inner[1], not inner[2]
+        if nm == "enumerate" and len(args) == 1:
+            inner = self._shape_of(args[0], depth + 1)
+            if inner is None or inner[2]:
+                return None
+            return inner[0], ("tuple", ("count",), inner[1]), False
+        if nm == "zip" and len(args) == 2:
+            x, y = self._shape_of(args[0], depth + 1), self._shape_of(args[1], depth + 1)
+            if x is None or y is None or x[2] or y[2]:
+                return None
+            n = x[0] if x[0] == y[0] else ("call", "min", None, (x[0], y[0]), ())
+            return n, ("tuple", x[1], y[1]), False
+        if nm == "take" and len(args) == 2:
+            inner = self._shape_of(args[0], depth + 1)
+            if inner is None or inner[2]:
+                return None
+            n = inner[0] if inner[0] == args[1] else ("call", "min", None, (inner[0], args[1]), ())
+            return n, inner[1], False
+        return None
+
+    def iter_shape(self, L):
+        """dict(lo, hi, rev, plain_range, comp) for the iterator local L, or None when it is not a walk over an index
+        range. The meaning of ('iv', L) is: the index value itself for a single Range / slice walk (lo..hi, possibly
+        reversed), the 0-based iteration counter (0..n) for zip/enumerate combinations."""
+        cache = self.__dict__.setdefault("_shapes", {})
+        if L in cache:
+            return cache[L]
+        cache[L] = None
+        sh = self._shape_of(self.raw_iter_source(L))
+        res = None
+        if sh is not None:
+            n, comp, rev = sh
+            if comp[0] == "idx":
+                a = comp[1]
+                res = dict(lo=a, hi=(n if a == ("int", 0) else None), rev=rev, plain_range=True, comp=comp)
+            elif comp[0] == "elem":
+                base, a = comp[1], comp[2]
+                hi = n if a == ("int", 0) else ("bin", "Add", a, n) if not (is_bin(n, "Sub") and n[3] == a) else n[2]
+                res = dict(lo=a, hi=hi, rev=rev, plain_range=False, comp=("elem", base, ("int", 0)))
+            else:
+                res = dict(lo=("int", 0), hi=n, rev=False, plain_range=False, comp=comp)
+        cache[L] = res
+        return res
+
+    def canon_iv(self, e):
+        """rewrite loop items of slice iterators into indexed form: `*w` of `for w in d[..n].iter_mut()` becomes d[iv],
+        `(i, w)` of enumerate becomes (iv, d[iv]), the sides of a zip become a[iv] / b[iv]"""
+        if not isinstance(e, tuple) or not e:
+            return e
+        # collect a projection chain ending in ('iv', L)
+        sel = []
+        probe = e
+        while probe[0] == "field" and isinstance(probe[2], str) and probe[2].isdigit():
+            sel.append(int(probe[2]))
+            probe = probe[1]
+        if probe[0] == "iv" and len(probe) == 2:
+            sh = self.iter_shape(probe[1])
+            if sh is not None and not sh["plain_range"]:
+                comp = sh["comp"]
+                ok = True
+                for k in reversed(sel):
+                    if comp[0] == "tuple" and k < 2:
+                        comp = comp[1 + k]
+                    else:
+                        ok = False
+                        break
+                if ok and comp[0] != "tuple":
+                    iv = ("iv", probe[1])
+                    if comp[0] == "count":
+                        return iv
+                    off = comp[1] if comp[0] == "idx" else comp[2]
+                    idx = iv if off == ("int", 0) else ("bin", "Add", iv, off)
+                    return idx if comp[0] == "idx" else ("index", comp[1], idx)
+            return e
+        if e[0] == "index" and len(e) == 3:
+            # already in indexed form: the counter inside the index must not be expanded a second time
+            idx = e[2]
+            core = idx[2] if (is_bin(idx, "Add") and idx[2][:1] == ("iv",)) else idx
+            if core[:1] == ("iv",) and len(core) == 2:
+                sh = self.iter_shape(core[1])
+                if sh is not None and not sh["plain_range"]:
+                    return ("index", self.canon_iv(e[1]), idx)
+        return tuple(self.canon_iv(x) if isinstance(x, tuple) else x for x in e)
+
+    def alloc_exprs(self, _depth=0):
+        """every `repeat(x).take(n)` allocation in the body, whatever its spelling (vec![x; n], a helper introduced
+        later that wraps it, ...): list of (x, n) in order of appearance, duplicates removed"""
+        out = []
+        for bb, t, fn in self.iter_calls():
+            e = self.e_call(t)
+            for x in walk(e):
+                if is_call(x, "take") and len(x[3]) == 2 and is_call(x[3][0], "repeat") and x[3][0][3]:
+                    item = (x[3][0][3][0], x[3][1])
+                    if item not in out:
+                        out.append(item)
+            # allocations made inside a helper introduced after the review (e.g. a shared `reallocate(&mut self, n)`),
+            # with its parameters replaced by the actual arguments
+            h = self.crate.new_helper(fn) if _depth < 3 else None
+            if h is not None and h is not self:
+                args = [self.e_operand(a) for a in t["args"]]
+                if len(args) == h.arg_count:
+                    mapping = {("param", h.local_name(i + 1)): args[i] for i in range(h.arg_count)}
+                    for x, n in h.alloc_exprs(_depth + 1):
+                        item = (subst_expr(x, mapping), norm_expr(subst_expr(n, mapping)))
+                        if item not in out:
+                            out.append(item)
+        return out
 
     def iv_name(self, iter_local):
         """user name bound to the item of `iter_local`'s next(), if any"""
